@@ -98,6 +98,37 @@ fn box_points(m: &M, ranges: &[(f64, f64)], rng: &mut ChaCha8Rng, count: usize) 
         .collect()
 }
 
+/// (relation, coefficient c, integer k, right-hand side r): `c * x rel r` holds at x = k in exact
+/// arithmetic on the float constants, but the bound r / c (or r * (1 / c)) computed in floating point
+/// falls an ulp on the wrong side of k - the case "integer variables after rounding".
+fn inexact_integer_rows() -> &'static Vec<(Cmp, f64, i32, f64)> {
+    static TABLE: std::sync::OnceLock<Vec<(Cmp, f64, i32, f64)>> = std::sync::OnceLock::new();
+    TABLE.get_or_init(|| {
+        let mut cs: Vec<f64> = (1..40).map(|i| i as f64 / 10.0).collect();
+        cs.extend((1..100).step_by(3).map(|i| i as f64 / 100.0));
+        cs.extend([1.0 / 3.0, 2.0 / 3.0, 0.07, 0.03, 1.1, 1.7, 2.3]);
+        let mut v = vec![];
+        for c in cs {
+            let qc = q(c).unwrap();
+            for k in 4..60 {
+                let r = c * k as f64;
+                let qr = q(r).unwrap();
+                let exact = &qc * qi(k as i64);
+                for bound in [r / c, r * (1.0 / c)] {
+                    if bound < k as f64 && exact <= qr {
+                        v.push((Cmp::Le, c, k, r));
+                    }
+                    if bound > k as f64 && exact >= qr {
+                        v.push((Cmp::Ge, c, k, r));
+                    }
+                }
+            }
+        }
+        v.dedup_by(|a, b| a.0 == b.0 && a.1 == b.1 && a.2 == b.2);
+        v
+    })
+}
+
 impl Driver for C07 {
     fn id(&self) -> &'static str {
         "C07"
@@ -123,6 +154,20 @@ impl Driver for C07 {
                     });
                 }
             }
+            // integer bounds that are inexact in floating point
+            let mut forced: Option<(usize, i32)> = None;
+            if rng.gen_bool(0.2) {
+                let table = inexact_integer_rows();
+                let (cmp, c, k, r) = table[rng.gen_range(0..table.len())];
+                // only a numeric variable may be re-declared (a Boolean one can be a logic operand)
+                let nums: Vec<usize> = (0..m.n()).filter(|i| !matches!(m.types[*i], VT::Bool)).collect();
+                if !nums.is_empty() {
+                    let i = nums[rng.gen_range(0..nums.len())];
+                    m.types[i] = VT::Int(0, 64);
+                    m.cons.push(Con { name: None, kind: CKind::Cmp(E::mul(E::Num(c), E::Var(i)), cmp, E::Num(r)) });
+                    forced = Some((i, k));
+                }
+            }
             let mut prng = unit_rng(ctx, "C07p", out.unit * 1000 + case);
             if only.is_some_and(|o| o != case) {
                 continue;
@@ -134,8 +179,21 @@ impl Driver for C07 {
             };
             let detail = |extra: Value| json!({"model": m.show(), "detail": extra});
             let mut reported = false;
-            let pts = point_set(&m, None, &mut prng, 60);
+            let mut pts = point_set(&m, None, &mut prng, 60);
+            if let Some((i, k)) = forced {
+                // the tight integer value, combined with every sampled value of the other variables
+                let mut extra: Vec<Vec<Q>> = pts.iter().take(30).cloned().collect();
+                for p in extra.iter_mut() {
+                    p[i] = qi(k as i64);
+                }
+                pts.extend(extra);
+            }
             let feasible_pts: Vec<&Vec<Q>> = pts.iter().filter(|p| m.feasible(p, &zero()) == Feas::Yes).collect();
+            if let Some((i, k)) = forced {
+                if feasible_pts.iter().any(|p| p[i] == qi(k as i64)) {
+                    out.tag("inexact-integer-bound:tight-point-feasible");
+                }
+            }
             // (a) published ranges of the compiled model
             if let Compiled::Ok(lm) = compile_m(&m) {
                 out.tag("compiled");
@@ -286,7 +344,7 @@ impl Driver for C07 {
         }
     }
     fn rule(&self) -> String {
-        "G-model models (all strata, plus chains x_i*k <= x_{i+1} + c with k in {1.9, 3, 7, -2} that need several revisits and make propagated bounds inexact); (a) every published range of the compiled linear model must contain the variable's value at every exactly source-feasible sampled assignment, and for affine models the certified true minimum/maximum of the variable; (b) through hook H1, with full propagation and with max_steps in {0,1,2,5,50}: the derived range of every variable contains those values, and bounds_of(e) of every sub-expression contains the exact value of e at points of the derived box (corners, midpoints, thirds, integer points, +-1e6 in unbounded directions); ranges are never NaN. non-trivial = model with at least one source-feasible sampled assignment".into()
+        "G-model models (all strata, plus chains x_i*k <= x_{i+1} + c with k in {1.9, 3, 7, -2} that need several revisits and make propagated bounds inexact; in 20% of the cases an integer variable gets a row c*x <= r or c*x >= r from a table of (c, k) pairs for which the row holds at x = k in exact arithmetic while r/c or r*(1/c) lands an ulp on the wrong side of k in floating point, and the point x = k is added to the sampled assignments); (a) every published range of the compiled linear model must contain the variable's value at every exactly source-feasible sampled assignment, and for affine models the certified true minimum/maximum of the variable; (b) through hook H1, with full propagation and with max_steps in {0,1,2,5,50}: the derived range of every variable contains those values, and bounds_of(e) of every sub-expression contains the exact value of e at points of the derived box (corners, midpoints, thirds, integer points, +-1e6 in unbounded directions); ranges are never NaN. non-trivial = model with at least one source-feasible sampled assignment".into()
     }
     fn thresholds(&self, tier: Tier) -> Thresholds {
         let s = tier.pick(6, 80);
@@ -298,6 +356,7 @@ impl Driver for C07 {
                 ("true-extreme-checked", 300 * s),
                 ("propagation-stopped-at-limit", 500 * s),
                 ("analysis-detected-infeasible", 200 * s),
+                ("inexact-integer-bound:tight-point-feasible", 300 * s),
             ],
             min_nontrivial: 1000 * s,
         }
@@ -469,7 +528,7 @@ impl Driver for C08 {
         "C08"
     }
     fn units(&self, tier: Tier) -> usize {
-        tier.pick(2400, 40000)
+        tier.pick(16000, 160000)
     }
     fn run_unit(&self, ctx: &Ctx, out: &mut UnitOut, _start: usize, only: Option<usize>) {
         let mut rng = unit_rng(ctx, "C08", out.unit);
@@ -489,7 +548,24 @@ impl Driver for C08 {
             match compile_m(&m) {
                 Compiled::Ok(lm) => {
                     out.tag(if hostile { "compiled:hostile" } else { "compiled:regular" });
-                    let bad = wellformed(&lm, Some(&m));
+                    let mut bad = wellformed(&lm, Some(&m));
+                    // a user variable named like an auxiliary must stay a column of its own: the same model
+                    // with neutral names has to compile to the same number of columns and rows
+                    if m.names.iter().any(|n| n.starts_with('$')) {
+                        let mut twin = m.clone();
+                        for (i, n) in twin.names.iter_mut().enumerate() {
+                            *n = format!("hv{i}");
+                        }
+                        if let Compiled::Ok(lt) = compile_m(&twin) {
+                            out.tag("auxiliary-named-user-variable:compared-with-neutral-twin");
+                            if lt.variables().len() != lm.variables().len() || lt.constraints().len() != lm.constraints().len() {
+                                bad.push((
+                                    "user-variable-shares-a-column-with-an-auxiliary".to_string(),
+                                    format!("{} columns / {} rows, but {} / {} when the user variables have neutral names", lm.variables().len(), lm.constraints().len(), lt.variables().len(), lt.constraints().len()),
+                                ));
+                            }
+                        }
+                    }
                     if bad.is_empty() {
                         out.tag("wellformed");
                         out.nontrivial(hash_str(&format!("{:?}", m)));
@@ -556,10 +632,10 @@ impl Driver for C08 {
         }
     }
     fn rule(&self) -> String {
-        "G-model models (two thirds regular, one third hostile: Infinity/-Infinity constants in comparison position, inside sums and under max, Infinity-Infinity in rows and objective; user variables named $abs_0, $min_0_select_1, ...; duplicate and generated-looking constraint names c, c__2, cap__3; unbounded declarations under exact abs/min/max; empty min/max/all/any); every compiled linear model is checked by the well-formedness monitor (sorted duplicate-free variable list == domain keys, source variables present, one coefficient per variable, all numbers finite, unique row names derived from user names with the first use preserved, auxiliaries carry the reserved $ prefix); every MissingFiniteBounds error must name variables whose derived range (hook H1) is really non-finite. non-trivial = compiled well-formed model or justified missing-bounds error".into()
+        "G-model models (two thirds regular, one third hostile: Infinity/-Infinity constants in comparison position, inside sums and under max, Infinity-Infinity in rows and objective; user variables named $abs_0, $min_0_select_1, ...; duplicate and generated-looking constraint names c, c__2, cap__3; unbounded declarations under exact abs/min/max; empty min/max/all/any); every compiled linear model is checked by the well-formedness monitor (sorted duplicate-free variable list == domain keys, source variables present, one coefficient per variable, all numbers finite, unique row names derived from user names with the first use preserved, auxiliaries carry the reserved $ prefix; a model with $-named user variables that compiles must have as many columns and rows as its twin with neutral names); every MissingFiniteBounds error must name variables whose derived range (hook H1) is really non-finite. non-trivial = compiled well-formed model or justified missing-bounds error".into()
     }
     fn thresholds(&self, tier: Tier) -> Thresholds {
-        let s = tier.pick(6, 100);
+        let s = tier.pick(40, 400);
         Thresholds {
             min_tags: vec![
                 ("compiled:regular", 3000 * s),
@@ -567,6 +643,7 @@ impl Driver for C08 {
                 ("missing-bounds-error-justified", 300 * s),
                 ("deduplicated-row-name", 100 * s),
                 ("rejected:EmptyAggregation", 50 * s),
+                ("auxiliary-named-user-variable:compared-with-neutral-twin", 100 * s),
             ],
             min_nontrivial: 3000 * s,
         }
